@@ -46,6 +46,7 @@ BASE_PARTIALS = {
     "part/iso": "{% increment a %}{{ a }}",
     "part/now": "{{ 'now' | date: '%s' }}/{{ now | date: '%s' }}/{{ today | date: '%Y-%m-%d' }}/{{ 'today' | date: '%Y-%m-%d' }};",
     "part/nowbase": "[{% block t %}{{ now | date: '%s' }}{% endblock %}]",
+    "part/blk": "<{% block z %}Z{% endblock %}>",
 }
 
 
@@ -102,10 +103,13 @@ STATEFUL = {
                  + str(int(now)) * 4),
     "nowblock": ("{% extends 'part/nowbase' %}{% block t %}{{ block.super }}+{{ 'now' | date: '%s' }}{% endblock %}",
                  lambda now, d: f"[{int(now)}+{int(now)}]"),
+    "macrorender": ("{% macro m a %}{% render 'part/iso' %}{{ a }}{% endmacro %}{% call m 7 %}|"
+                    "{% render 'part/blk' %}|{% include 'part/blk' %}|{% for i in (1..2) %}{% call m i %}{% endfor %}",
+                    lambda now, d: "077|<Z>|<Z>|011022"),
     "nowtwice": ("{{ 'now' | date: '%s' }}-{{ 'now' | date: '%s' }}-{{ now | date: '%s' }}",
                  lambda now, d: f"{int(now)}-{int(now)}-{int(now)}"),
 }
-NEEDS_PARTIALS = {"inherit", "incpart", "renpart", "nowparts", "nowblock"}
+NEEDS_PARTIALS = {"inherit", "incpart", "renpart", "nowparts", "nowblock", "macrorender"}
 
 # environment-isolation probe set (time independent); outcomes may be errors
 PROBES = (
@@ -589,10 +593,13 @@ class World:
         # oracle 2: closed form
         prog = h.get("prog")
         if (prog in STATEFUL and step["op"] == "render" and not fault and self.plain_env(ei)
-                and not h.get("globals") and got[0] == "ok"):
+                and not h.get("globals")):
             want = STATEFUL[prog][1](self.clock.now, self.raw_data(step["data"]))
-            if got[1] != want:
-                raise Violation("closed_form", step=step["id"], prog=prog, got=got[1], expected=want)
+            plain_data = (step["data"].get("drops") or {}).get("mode") == "none"
+            # an error where text is expected counts only for plain data: wrapped data
+            # (Mapping/Sequence doubles) legitimately fails some filters' type checks
+            if (got[0] == "ok" and got[1] != want) or (got[0] != "ok" and plain_data):
+                raise Violation("closed_form", step=step["id"], prog=prog, got=_short(got), expected=want)
             self.count("closed_form_ok")
         # oracle 3: drift of the reference itself
         key = digest([ei, len(self.env_events[ei]), [e for e in self.env_events[ei] if e[0] == "config"],
@@ -851,11 +858,25 @@ def do_par(w: World, step: dict) -> None:
         except BaseException as exc:  # noqa: BLE001
             return canon_exc(exc)
 
+    cancelled: set[int] = set()
+
+    async def canceller(ts, target):
+        from sim.loop import park as _park
+
+        await _park("fault:cancel")
+        if not ts[target].done():
+            ts[target].cancel()
+            cancelled.add(target)
+            w.count("F8_cancel")
+
     async def batch():
         loop = asyncio.get_running_loop()
         ts = [loop.create_task(one(i, tk), name=f"T{i}") for i, tk in enumerate(tasks)]
-        res = await asyncio.gather(*ts, return_exceptions=True)
-        for i, r in enumerate(res):
+        extra = []
+        if step.get("cancel_target") is not None and step["cancel_target"] < len(ts):
+            extra.append(loop.create_task(canceller(ts, step["cancel_target"]), name="X"))
+        res = await asyncio.gather(*ts, *extra, return_exceptions=True)
+        for i, r in enumerate(res[: len(ts)]):
             results[i] = canon_exc(r) if isinstance(r, BaseException) else r
 
     eis = {w.hspec[tk["h"]]["env"] for tk in tasks if tk["h"] in w.hspec}
@@ -874,6 +895,12 @@ def do_par(w: World, step: dict) -> None:
             raise Violation("batch_lost_task", task=i)
         if got[0] == "err":
             w.count("err:" + got[1])
+        if got[0] == "err" and got[1] == "CancelledError":
+            if i not in cancelled:
+                # nobody cancelled this render: another caller's cancellation reached it
+                raise Violation("spurious_cancellation", step=step["id"], task=i, cancelled=sorted(cancelled))
+            w.count("cancelled_steps")
+            continue
         w.judge(inner, got, f"par[{i}]")
         w.count("par_tasks")
 
@@ -1062,7 +1089,10 @@ def gen_plan(seed: int, tier: str) -> dict:
             for _ in range(rng.randint(2, 4)):
                 tasks.append({"h": hid if rng.random() < 0.6 else rng.choice(same_env), "data": data_spec(),
                               "reget": rng.random() < 0.4})
-            steps.append({"op": "par", "id": nid(), "tasks": tasks})
+            st = {"op": "par", "id": nid(), "tasks": tasks}
+            if rng.random() < 0.3:
+                st["cancel_target"] = rng.randrange(len(tasks))
+            steps.append(st)
         elif r < 0.93:
             hid = rng.choice(handles)[0]
             steps.append({"op": "sweep", "id": nid(), "h": hid, "mode": rng.choice("sa"), "data": data_spec(),
